@@ -76,6 +76,15 @@ Proof.
   destruct (n <=? len (c_buf c)); [apply X; reflexivity|]. destruct (c_out c); [exact S|apply X; reflexivity].
 Qed.
 
+(* the VM blocks in a read only while the peer holds its stdout open without having delivered enough *)
+Definition hang_ok (w : world) : Prop := exists c, cur w = Some c /\ c_out c = true.
+Lemma os_read_hang l n w w' : os_read l n w = RHang w' -> hang_ok w'.
+Proof.
+  unfold os_read, hang_ok. destruct (cur (sync l w)) as [c|] eqn:E; [|discriminate].
+  destruct (n <=? len (c_buf c)); [discriminate|]. destruct (c_out c) eqn:O; [|discriminate].
+  intros H; inversion H; subst. eauto.
+Qed.
+
 (* waitpid(WNOHANG): either nothing changes for the VM, or the current child is now reaped *)
 Definition ext_reaped (w w' : world) : Prop :=
   detached w' = detached w /\ sigign w' = sigign w /\
@@ -187,7 +196,7 @@ Qed.
 Definition start_post (w : world) (r : res bool) : Prop :=
   match r with
   | Go b v' w' => inv v' w' /\ has_pid v' = b /\ sigign w' = sigign w
-  | Stop f w' => match f with FKilled _ => sigign w = false | FHang _ => True | FCrash => False end
+  | Stop f w' => match f with FKilled _ => sigign w = false | FHang _ => hang_ok w' | FCrash => False end
   end.
 
 Lemma cop_start_spec v w : cur w = None -> Forall (fun c => done_child c = true) (detached w) ->
@@ -205,13 +214,13 @@ Proof.
     - destruct S as (A & B & Cc). split; [exact A|]. split; [exact B|]. destruct X as (_ & X2 & _). congruence.
     - destruct S as [-> G]. destruct X as (_ & X2 & _). congruence. }
   pose proof (os_write_ext LInit w0) as W. destruct (os_write LInit w0) as [w1|w1|w1].
-  - pose proof (os_read_ext LReady 8 w1) as R. destruct (os_read LReady 8 w1) as [h w2|w2|w2].
+  - pose proof (os_read_ext LReady 8 w1) as R. destruct (os_read LReady 8 w1) as [h w2|w2|w2] eqn:ER.
     + assert (X2 : ext w0 w2) by (eapply ext_trans; eauto).
       destruct (parse_header h) as [[ty l]|]; [|apply (ST w2 false X2)].
       destruct (ty =? COP_MSG_READY); [|apply (ST w2 false X2)].
       unfold start_post. split; [eapply ext_inv; eauto|]. split; [reflexivity|]. destruct X2 as (_ & X & _). congruence.
     + apply (ST w2 false). eapply ext_trans; eauto.
-    + exact I.
+    + unfold start_post. eapply os_read_hang; eauto.
   - apply (ST w1 false W).
   - destruct W as [_ G]. unfold start_post. congruence.
 Qed.
@@ -223,7 +232,7 @@ Definition call_post (dec : list byte -> dres) (req : req_res) (w : world) (r : 
   | Stop f w' =>
       match f with
       | FKilled _ => sigign w = false
-      | FHang _ => True
+      | FHang _ => hang_ok w'
       | FCrash => (exists p, dec p = DOob) \/ req = ReqOverrun
       end
   end.
@@ -234,7 +243,7 @@ Proof.
   pose proof (cop_is_alive_spec j v w I) as A. destruct (cop_is_alive j v w) as [[alive v1] w1].
   assert (STARTED : match (if alive then Go true v1 w1 else cop_start v1 w1) with
                     | Go b v2 w2 => inv v2 w2 /\ has_pid v2 = b /\ sigign w2 = sigign w
-                    | Stop f w2 => match f with FKilled _ => sigign w = false | FHang _ => True | FCrash => False end
+                    | Stop f w2 => match f with FKilled _ => sigign w = false | FHang _ => hang_ok w2 | FCrash => False end
                     end).
   { destruct alive; [exact A|]. destruct A as (I1 & P1 & G1).
     destruct I1 as (_ & I2 & I3). destruct (I2 P1) as (C & _).
@@ -258,25 +267,25 @@ Proof.
   pose proof (os_write_ext (LReq j) w2) as W. destruct (os_write (LReq j) w2) as [w3|w3|w3].
   2:{ apply ST; exact W. }
   2:{ destruct W as [_ G]. unfold call_post. congruence. }
-  pose proof (os_read_ext (LHdr j) 8 w3) as R. destruct (os_read (LHdr j) 8 w3) as [h w4|w4|w4].
+  pose proof (os_read_ext (LHdr j) 8 w3) as R. destruct (os_read (LHdr j) 8 w3) as [h w4|w4|w4] eqn:ER.
   2:{ apply ST. eapply ext_trans; eauto. }
-  2:{ exact Logic.I. }
+  2:{ unfold call_post. eapply os_read_hang; eauto. }
   assert (X4 : ext w2 w4) by (eapply ext_trans; eauto).
   destruct (parse_header h) as [[ty l]|]; [|apply ST; exact X4].
   destruct (ty =? COP_MSG_FFI_RESULT).
   { destruct (l =? 0); [apply KEEP; exact X4|].
-    pose proof (os_read_ext (LPay j) l w4) as R2. destruct (os_read (LPay j) l w4) as [p w5|w5|w5].
+    pose proof (os_read_ext (LPay j) l w4) as R2. destruct (os_read (LPay j) l w4) as [p w5|w5|w5] eqn:ER2.
     - assert (X5 : ext w2 w5) by (eapply ext_trans; eauto).
       destruct (dec p) eqn:Dp; try (apply KEEP; exact X5).
       unfold call_post. left. eauto.
     - apply KEEP. eapply ext_trans; eauto.
-    - exact Logic.I. }
+    - unfold call_post. eapply os_read_hang; eauto. }
   destruct (ty =? COP_MSG_FFI_ERROR); [|apply KEEP; exact X4].
   cbv zeta. destruct (N.min l 255 =? 0); [apply KEEP; exact X4|].
-  pose proof (os_read_ext (LPay j) (N.min l 255) w4) as R2. destruct (os_read (LPay j) (N.min l 255) w4) as [p w5|w5|w5].
+  pose proof (os_read_ext (LPay j) (N.min l 255) w4) as R2. destruct (os_read (LPay j) (N.min l 255) w4) as [p w5|w5|w5] eqn:ER2.
   - apply KEEP. eapply ext_trans; eauto.
   - apply KEEP. eapply ext_trans; eauto.
-  - exact Logic.I.
+  - unfold call_post. eapply os_read_hang; eauto.
 Qed.
 
 (* ---------- whole runs *)
@@ -289,7 +298,7 @@ Definition run_post (dec : list byte -> dres) (reqs : list req_res) (w : world) 
                        cur (o_world o) = None /\ Forall (fun c => done_child c = true) (detached (o_world o))
   | SKilled _ => sigign w = false
   | SCrash => (exists p, dec p = DOob) \/ ~ no_overrun reqs
-  | SHang _ => True
+  | SHang _ => hang_ok (o_world o)
   end.
 
 Lemma run_calls_spec dec : forall reqs j done v w, inv v w -> run_post dec reqs w (run_calls dec reqs j done v w).
@@ -325,7 +334,7 @@ Theorem run_contained : forall dec scripts reqs,
   let o := run dec true scripts reqs in
   match o_status o with
   | SExit0 | SExit1 => has_pid (o_vm o) = false /\ all_reaped (o_world o) = true /\ orphans (o_world o) = false /\ wfb (o_vm o) (o_world o) = true
-  | SHang _ => True
+  | SHang _ => hang_ok (o_world o)
   | SKilled _ | SCrash => False
   end.
 Proof.
@@ -348,7 +357,7 @@ Proof.
   - destruct R as (A & B & C & D). apply X; assumption.
   - simpl in R. discriminate.
   - destruct R as [[p Hp]|N]; [exact (Sd p Hp)|exact (N Nr)].
-  - exact I.
+  - exact R.
 Qed.
 
 (* ---------- one call: with SIGPIPE ignored, whatever the peer does, the call returns (a value, the in-process fallback or a
@@ -357,7 +366,7 @@ Theorem call_contained : forall dec j req v w,
   sigign w = true -> safe_dec dec -> req <> ReqOverrun -> inv v w ->
   match call_cop dec j req v w with
   | Go _ v' w' => inv v' w' /\ sigign w' = true
-  | Stop (FHang _) _ => True
+  | Stop (FHang _) w' => hang_ok w'
   | Stop _ _ => False
   end.
 Proof.
